@@ -283,6 +283,15 @@ def build_cli():
 
 
 COPIA = os.path.join(CLI_TARGET, "release", "copia")
+SHIM = os.path.join(BUILD, "libvpsched.so")
+
+
+def build_shim():
+    rc, out = sh(["make", "-C", os.path.join(VERIF, "interpose")], timeout=300)
+    if rc != 0 or not os.path.exists(SHIM):
+        return False, "shim build failed: " + out[-500:]
+    return True, ""
+
 
 
 def run_harness(cmd, outdir, seed, tier, profile="release", extra=(), timeout=3000):
